@@ -66,7 +66,7 @@ class SumWorker(Task):
             ctx.oblige("post.dV-times-sum-over-selected-cells", to_real(v) == dV * red, "P")
 
 
-def tasks(tier):
+def _tasks0(tier):
     from props.pestle_parents import parent_tasks
     return [SumWorker(m, v) for m in (True, False) for v in (False, True)] + parent_tasks(tier)
 
@@ -119,3 +119,10 @@ def scenarios(tier, seed):
 def run_scenario(p, wd):
     from harness.rt_tools import run_pestle_scenario
     return run_pestle_scenario(p, wd)
+
+
+
+def tasks(tier):
+    # the FAB header parsers / formatter (real bodies on canonical header text): the obligations behind the header contracts
+    from props.parsers import parser_tasks
+    return _tasks0(tier) + parser_tasks("C09", nds=(2, 3))
